@@ -126,13 +126,16 @@ where
                 // Clone the sender's credential and sender for validation before consuming
                 let sender_credential = processed_mls_message.credential().clone();
                 let message_sender = processed_mls_message.sender().clone();
+                // The epoch the message was sent in. It differs from the group's current
+                // epoch for messages that arrive late (decrypted with past-epoch secrets).
+                let message_epoch = processed_mls_message.epoch().as_u64();
 
                 match processed_mls_message.into_content() {
                     ProcessedMessageContent::ApplicationMessage(application_message) => {
                         Ok(MessageProcessingResult::ApplicationMessage(
                             self.process_application_message(
                                 group,
-                                mls_group.epoch().as_u64(),
+                                message_epoch,
                                 event,
                                 application_message,
                                 sender_credential,
